@@ -1,2 +1,12 @@
 pub mod dframe;
 pub mod node;
+pub mod dcrdt;
+pub mod dlimiter;
+pub mod dsync;
+pub mod dagent;
+pub mod dstore;
+
+/// Identity of an announcement: hash of its wire encoding.
+pub fn node_ann_id(a: &radicle_node::service::message::Announcement) -> u64 {
+    crate::kit::fnv(crate::kit::FNV0, &radicle_node::wire::serialize(&radicle_node::service::Message::Announcement(a.clone())))
+}
